@@ -116,8 +116,12 @@ setup_worker.tier = "quick"
 
 
 def reader_nodes(e):
-    out = [x for x in e.walk() if type(x).__name__.startswith("ReadParquet")]
-    out += [x.operand("_expr") for x in e.walk() if type(x).__name__ in ("FusedIO", "FusedParquetIO")]
+    nodes = list(e.walk())
+    for x in list(nodes):
+        if type(x).__name__ == "Fused":
+            nodes += list(x.exprs)
+    out = [x for x in nodes if type(x).__name__.startswith("ReadParquet")]
+    out += [x.operand("_expr") for x in nodes if type(x).__name__ in ("FusedIO", "FusedParquetIO")]
     return out
 
 
@@ -190,7 +194,7 @@ def run_case(case):
             except Exception as ex:
                 viol = dict(progcase.exc_info(ex), oracle="projected_read_runs", proj=proj)
                 break
-            if any(type(x).__name__ in ("FusedIO", "FusedParquetIO") for x in qo.expr.walk()):
+            if {"FusedIO", "FusedParquetIO"} & set(progcase.plan_classes(qo.expr)):
                 bump("fused_reads")
                 rec["nt"].append(f"{ds}|{reader}|{cd}|fused|{proj}")
                 if cd:
@@ -240,7 +244,7 @@ def run_case(case):
             rn = reader_nodes(qo.expr)
             absorbed_f = bool(rn) and rn[0].operand("filters") is not None and repr(rn[0].operand("filters")) != repr(kw2.get("filters"))
             absorbed_c = bool(rn) and rn[0].operand("columns") is not None
-            fused = any(type(x).__name__ in ("FusedIO", "FusedParquetIO") for x in qo.expr.walk())
+            fused = bool({"FusedIO", "FusedParquetIO"} & set(progcase.plan_classes(qo.expr)))
             if absorbed_f:
                 bump("filters_absorbed")
             if absorbed_c:
@@ -256,8 +260,12 @@ def run_case(case):
                     flt = rn[0].operand("filters") or []
                     tuples = [t for conj in flt for t in (conj if isinstance(conj, (list, tuple)) and conj and isinstance(conj[0], (list, tuple)) else [conj])]
                     ne_cols = sorted({t[0] for t in tuples if t[1] == "!="})
-                    missing = sorted(set(exp["rid"].tolist() if hasattr(exp, "columns") and "rid" in exp.columns else []) - set(got["rid"].tolist() if hasattr(got, "columns") and "rid" in got.columns else []))
-                    srcf = full.set_index("rid")
+                    if hasattr(exp, "columns") and "rid" in exp.columns and hasattr(got, "columns") and "rid" in got.columns:
+                        missing = sorted(set(exp["rid"].tolist()) - set(got["rid"].tolist()))
+                        srcf = full.set_index("rid")
+                    else:
+                        missing = sorted(set(exp.index.tolist()) - set(got.index.tolist())) if full.index.is_unique else []
+                        srcf = full
                     viol["missing_all_null_in_ne_col"] = bool(missing) and bool(ne_cols) and all(any(pd.isna(srcf.loc[m, c]) for c in ne_cols) for m in missing) and len(got) < len(exp)
                 except Exception:
                     pass
